@@ -200,7 +200,7 @@ class Builtins:
             S.sort(ty)
             empty_tab = "((as const (Array String %s)) %s)" % (
                 S.sort(vv) if T.total_map_value(vv) else S.sort(T.Opt(vv)),
-                ("vs_empty" if vv.kind == "vset" else "(as seq.empty %s)" % S.sort(vv)) if T.total_map_value(vv) else S.none(vv))
+                ("(mkVSet ((as const (Array Val Bool)) false) ((as const (Array Val Val)) VNone) 0)" if vv.kind == "vset" else "(as seq.empty %s)" % S.sort(vv)) if T.total_map_value(vv) else S.none(vv))
             t = SV("(%s %s ((as const (Array String QN)) (mkQN (mkNs \"\" \"\") \"\")))" % (mk, empty_tab), ty)
             for a, b in v.data:
                 t = ex.map_put(t, a, b)
@@ -237,6 +237,14 @@ class Builtins:
             g = e.generators[0]
 
             def got(s, it):
+                if isinstance(it, PyV) and it.kind == "dynattr" and not s.spec:
+                    # class-level constant depending on the dynamic class: one case per class
+                    o, attr, vals = it.data
+                    for cname, enc in sorted(vals.items()):
+                        c_ = ex.cls_exact(o.t, cname)
+                        if ex.feasible(s, c_):
+                            got(s.assume(c_).step("<%s>" % cname), ex.const(enc))
+                    return None
                 if isinstance(it, PyV) and it.kind in ("tuple", "cset"):
                     items = it.data
                 elif isinstance(it, PyV) and it.kind == "cdictitems":
@@ -440,7 +448,10 @@ class Builtins:
                 d = ex.box(args[1])
                 # the first element in iteration order: some fixed member (choice function vs_firstkey)
                 self.cx.axioms.append("(=> (not (= (vs_has %s) ((as const (Array Val Bool)) false))) (select (vs_has %s) (vs_firstkey %s)))" % (s_.t, s_.t, s_.t))
-                return k(st, SV(ITE("(= (vs_n %s) 0)" % s_.t, d.t, "(select (vs_rep %s) (vs_firstkey %s))" % (s_.t, s_.t)), T.VAL))
+                self.cx.axioms.append("(=> (and (vs_wf %s) (> (vs_n %s) 0)) (select (vs_has %s) (vs_firstkey %s)))" % (s_.t, s_.t, s_.t, s_.t))
+                term = ITE("(= (vs_n %s) 0)" % s_.t, d.t, "(select (vs_rep %s) (vs_firstkey %s))" % (s_.t, s_.t))
+                st2, nm = ex.name_term(st, term, "Val", "first")
+                return k(st2, SV(nm, T.VAL))
             raise Unsupported("next() on %r" % (it,), node)
         if name == "type":
             return k(st, PyV("typeof", args[0]))
@@ -637,8 +648,11 @@ class Builtins:
         if name == "isspace":
             if "str_isspace" not in self.cx.funs_known:
                 self.cx.funs_known.add("str_isspace")
-                self.cx.funs.append("(declare-fun str_isspace (String) Bool)")
-                self.cx.funs.append('(assert (not (str_isspace "")))')
+                # str.isspace(): non-empty and every character is whitespace (Unicode White_Space + \x1c-\x1f)
+                ws = [0x9, 0xa, 0xb, 0xc, 0xd, 0x1c, 0x1d, 0x1e, 0x1f, 0x20, 0x85, 0xa0, 0x1680] + list(range(0x2000, 0x200b)) + \
+                     [0x2028, 0x2029, 0x202f, 0x205f, 0x3000]
+                alts = " ".join('(str.to_re "\\u{%x}")' % c for c in ws)
+                self.cx.funs.append("(define-fun str_isspace ((s String)) Bool (str.in_re s (re.+ (re.union %s))))" % alts)
             return k(st, SV("(str_isspace %s)" % o.t, T.BOOL))
         if name == "lower":
             if "str_lower" not in self.cx.funs_known:
@@ -773,6 +787,7 @@ class Builtins:
             if not st.bound:
                 # choice function of set iteration: the first element is a member
                 self.cx.axioms.append("(=> (not (= (vs_has %s) ((as const (Array Val Bool)) false))) (select (vs_has %s) (vs_firstkey %s)))" % (a[0].t, a[0].t, a[0].t))
+                self.cx.axioms.append("(=> (and (vs_wf %s) (> (vs_n %s) 0)) (select (vs_has %s) (vs_firstkey %s)))" % (a[0].t, a[0].t, a[0].t, a[0].t))
             return SV("(vs_first %s)" % a[0].t, T.VAL)
         if name == "vs_add":
             return ex.vset_add(a[0], a[1])
@@ -795,7 +810,13 @@ class Builtins:
             return SV("(mk_%s %s %s)" % (S.sort(pt), a[0].t, a[1].t), pt)
         if name == "seq_has":
             x = ex.coerce(a[1], a[0].ty.args[0])
-            return B("(seq.contains %s (seq.unit %s))" % (a[0].t, x.t))
+            return B(_member(a[0].t, x.t))
+        if name == "seq_member_index_lemma":
+            # a member of a sequence sits at some index (fact of the theory of sequences, stated for the solver;
+            # instantiated for one sequence term)
+            es = S.sort(a[0].ty.args[0])
+            return B("(forall ((p %s)) (=> (seq.contains %s (seq.unit p)) (exists ((j Int)) (and (<= 0 j) (< j (seq.len %s)) (= (seq.nth %s j) p)))))"
+                     % (es, a[0].t, a[0].t, a[0].t))
         if name == "attr_set":
             # the python set of (name, value) pairs of an attribute table, as a set of canonical pairs
             pt = T.Tup(T.STR, T.VAL)
@@ -807,6 +828,17 @@ class Builtins:
                 self.cx.funs.append("(assert (forall ((m %s) (p %s)) (= (select (attrset m) p) "
                                     "(select (vs_has (select (%s m) (%s_0 p))) (%s_1 p)))))" % (ms, pn, T.qm_names(T.VSET)[1], pn, pn))
             return SV("(attrset %s)" % a[0].t, T.SetT(pt))
+        if name == "is_formal":
+            # u is the URI of one of the FORMAL_ATTRIBUTES of the record's class
+            r = a[0]
+            subs = sorted(ex.repo.subclasses("ProvRecord"), key=lambda c: c.name)
+            cases = []
+            for ci in subs:
+                fa = ci.class_attr("FORMAL_ATTRIBUTES")
+                uris = [ex.uri_of(ex.const(x)) for x in (fa["v"] if fa else [])]
+                if uris:
+                    cases.append(AND(ex.cls_exact(r.t, ci.name), OR(*[EQ(a[1].t, u) for u in uris])))
+            return B(OR(*cases))
         if name == "uri_in":
             cs = a[1]
             return B(OR(*[EQ(a[0].t, ex.uri_of(x)) for x in cs.data]))
@@ -981,6 +1013,43 @@ class Builtins:
         if name == "flt_of_int":
             return SV("(flt_of_int %s)" % a[0].t, T.FLT)
         raise Unsupported("specification builtin %s" % name, node)
+
+
+def _member(seq_t, x_t):
+    """membership of x in a sequence term, distributing over literal structure:
+    empty -> false, unit a -> x = a, A ++ B -> member(A) or member(B)"""
+    from .core import Ctx
+    if seq_t.startswith("(as seq.empty"):
+        return "false"
+    if seq_t.startswith("(seq.unit ") and seq_t.endswith(")"):
+        inner = seq_t[len("(seq.unit "):-1]
+        if len(Ctx.conjuncts("(and " + inner + ")")) == 1:
+            return EQ(x_t, inner)
+    if seq_t.startswith("(seq.++ "):
+        parts = Ctx.conjuncts("(and " + seq_t[len("(seq.++ "):])
+        return OR(*[_member(p, x_t) for p in parts])
+    return "(seq.contains %s (seq.unit %s))" % (seq_t, x_t)
+
+
+def _units_of(t):
+    """elements of a literal sequence term (seq.++ (seq.unit a) ...) / (seq.unit a) / (as seq.empty ..), else None"""
+    from .core import Ctx
+    if t.startswith("(as seq.empty"):
+        return []
+    if t.startswith("(seq.unit ") and t.endswith(")"):
+        inner = t[len("(seq.unit "):-1]
+        parts = Ctx.conjuncts("(and " + inner + ")")
+        return [inner] if len(parts) == 1 else None
+    if t.startswith("(seq.++ "):
+        parts = Ctx.conjuncts("(and " + t[len("(seq.++ "):])
+        out = []
+        for p in parts:
+            u = _units_of(p)
+            if u is None:
+                return None
+            out.extend(u)
+        return out
+    return None
 
 
 def _unk(name, node):
